@@ -1,5 +1,6 @@
 import NLV.Model.DoneCallback
 import NLV.Lemmas.DoneCallback
+import NLV.Props.C18T
 /-!
 # C18 — done-callbacks (`ThreadDoneCallback`, `TaskDoneCallback`)
 
